@@ -737,7 +737,7 @@ func c17GroupName(id uint32) string {
 
 func checkC17OSDir(c *lib.Ctx, onlyKind string, onlyPerm *uint32) {
 	r := c.R
-	root, err := os.MkdirTemp("", "vh-c17os-")
+	root, err := lib.MkScratch("vh-c17os-")
 	if err != nil {
 		r.Fail(lib.Failure{Kind: "tie", Key: "tmpdir", What: err.Error()})
 		return
@@ -926,7 +926,7 @@ func c17GenShapes(c *lib.Ctx) []c17Shape {
 
 func checkC17RSShapes(c *lib.Ctx, only *c17Shape) {
 	r := c.R
-	realDir, err := os.MkdirTemp("", "vh-c17rs-")
+	realDir, err := lib.MkScratch("vh-c17rs-")
 	if err != nil {
 		r.Fail(lib.Failure{Kind: "tie", Key: "tmpdir", What: err.Error()})
 		return
